@@ -16,6 +16,7 @@ import BufrModel.Drv.TemplateOp
 import BufrModel.Drv.CacheOp
 import BufrModel.Drv.CompilerOp
 import BufrModel.Drv.TableDefOp
+import BufrModel.Drv.QueryOp
 open Lean Bufr.Drv
 
 /-- stateless operations: one line per op -/
@@ -33,6 +34,7 @@ def statelessOps : List (String × (Json → J Json)) :=
   ("subset", opSubset) ::
   ("normalize", opNormalize) ::
   ("cache", opCache) ::
+  ("pyslice", opPySlice) ::
   []
 
 /-- operations that read or change the driver state -/
@@ -56,6 +58,8 @@ def statefulOps : List (String × (DrvState → Json → J (DrvState × Json))) 
   ("tabledef-extract", TD.opTableDefExtract) ::
   ("fix-ncep", TD.opFixNcep) ::
   ("build-src", TD.opBuildSrc) ::
+  ("query", opQuery) ::
+  ("paths", opPaths) ::
   []
 
 def dispatch (st : DrvState) (j : Json) : J (DrvState × Json) := do
